@@ -1745,9 +1745,3 @@ func driveExhold(t *testing.T, rng *RNG, n int, out *Out) {
 	}
 }
 
-func minInt(a, b int) int {
-	if a < b {
-		return a
-	}
-	return b
-}
